@@ -50,10 +50,31 @@ def coq_sources():
     return sorted(out)
 
 
-def grep_gate():
-    """Forbidden constructs anywhere in the development (comments stripped)."""
+def dep_closure(rel):
+    """Files of the development that `rel` (transitively) requires, by parsing Require lines."""
+    seen, todo = set(), [rel]
+    while todo:
+        r = todo.pop()
+        if r in seen or not os.path.exists(os.path.join(COQ, r)):
+            continue
+        seen.add(r)
+        text = open(os.path.join(COQ, r)).read()
+        for m in re.finditer(r'From\s+PB\s+Require\s+(?:Import|Export)\s+(.*?)\.(?=\s|$)', text, re.S):
+            for mod in m.group(1).split():
+                todo.append(mod.replace('.', '/') + '.v')
+        for m in re.finditer(r'(?<!PB\s)Require\s+(?:Import|Export)\s+(.*?)\.(?=\s|$)', text, re.S):
+            for mod in m.group(1).split():
+                if mod.startswith('PB.'):
+                    todo.append(mod[3:].replace('.', '/') + '.v')
+    return seen
+
+
+def grep_gate(only=None):
+    """Forbidden constructs in the development (comments stripped); `only` restricts to a file set."""
     bad = []
     for rel in coq_sources():
+        if only is not None and rel not in only:
+            continue
         with open(os.path.join(COQ, rel)) as f:
             text = f.read()
         # strip (possibly nested) comments
@@ -293,7 +314,8 @@ class Ctx:
 
     # -- Coq
     def gate(self):
-        bad = grep_gate()
+        # everything props/<prop>.v depends on (the whole development is gated by bin/setup)
+        bad = grep_gate(only=dep_closure(f'props/{self.prop}.v'))
         self.obligations.append('grep-gate:no-Admitted/Axiom/Parameter/guard-switches')
         if bad:
             self.broke('grep-gate', '; '.join(bad[:10]))
